@@ -12,25 +12,19 @@ inductive EPhase where
   | A | B
   deriving DecidableEq, Repr
 
-/-- the object looked up by `c` is in a complete pack: some pack (phase A) / the stable pack (phase B) -/
-def EnvOK (c : Cfg) (pstar : Name) : EPhase → FS → Prop
+/-- the object looked up by `c` is in a complete PACK: some pack (phase A) / the stable pack (phase B) -/
+def HoldOK (c : Cfg) (pstar : Name) : EPhase → FS → Prop
   | .A, f => ∃ p, f.complete p = true ∧ c.x ∈ c.ids p
   | .B, f => f.complete pstar = true ∧ c.x ∈ c.ids pstar
 
 /-- allowed evolution of the environment between two observations by a reader (transitively closed by construction) -/
-def EnvStep : EPhase × FS → EPhase × FS → Prop
+def PackStep : EPhase × FS → EPhase × FS → Prop
   | (.A, f), (.A, f') => ∀ p, f.complete p = true → f'.complete p = true
   | (.A, _), (.B, _) => True
   | (.B, _), (.B, _) => True
   | (.B, _), (.A, _) => False
 
-/-- a trace of (ghost phase, file system) pairs as seen at the reader's successive steps -/
-def Rely (c : Cfg) (pstar : Name) : List (EPhase × FS) → Prop
-  | [] => True
-  | [e] => EnvOK c pstar e.1 e.2
-  | e :: e' :: rest => EnvOK c pstar e.1 e.2 ∧ EnvStep e e' ∧ Rely c pstar (e' :: rest)
-
-/-- passes still available suffice: see the case analysis in `rinv_step` -/
+/-- passes still available suffice: see the case analysis in `pinv_step` -/
 def Budget (c : Cfg) (pstar : Name) (ph : EPhase) (f : FS) (a : Nat) (td : List Name) : Prop :=
   match ph with
   | .B => (pstar ∈ td ∧ a < c.maxAttempts) ∨ a + 1 < c.maxAttempts
@@ -43,8 +37,8 @@ def KInv (c : Cfg) (r : RState) : Prop := ∀ q ∈ r.cache, c.x ∈ c.ids q →
 def LInv (c : Cfg) (r : RState) : Prop :=
   r.rescanned = true → (∃ q ∈ r.todo, c.x ∈ c.ids q) ∨ r.disappeared = true
 
-/-- the reader invariant -/
-def RInv (c : Cfg) (pstar : Name) (ph : EPhase) (f : FS) (r : RState) : Prop :=
+/-- the invariant of one run of `_lookup_in_packs` while the object is in a complete pack: it cannot raise `KeyError` -/
+def PInv (c : Cfg) (pstar : Name) (ph : EPhase) (f : FS) (r : RState) : Prop :=
   match r.phase with
   | .done b => b = true
   | .loose => False
@@ -89,7 +83,7 @@ theorem complete_mem_new {f : FS} {p : Name} (cache : List Name) (h : f.complete
   exact ⟨hv, by simpa using hc⟩
 
 theorem budget_env {c : Cfg} {pstar : Name} {ph ph' : EPhase} {f f' : FS} {a : Nat} {td : List Name}
-    (h : Budget c pstar ph f a td) (hs : EnvStep (ph, f) (ph', f')) : Budget c pstar ph' f' a td := by
+    (h : Budget c pstar ph f a td) (hs : PackStep (ph, f) (ph', f')) : Budget c pstar ph' f' a td := by
   cases ph <;> cases ph'
   · -- A → A
     unfold Budget at *
@@ -103,14 +97,14 @@ theorem budget_env {c : Cfg} {pstar : Name} {ph ph' : EPhase} {f f' : FS} {a : N
     rcases h with ⟨_, ha⟩ | ha
     · exact .inr ha
     · exact .inr (by omega)
-  · exact absurd hs (by simp [EnvStep])
+  · exact absurd hs (by simp [PackStep])
   · unfold Budget at *
     simp only at *
     exact h
 
-theorem rinv_env {c : Cfg} {pstar : Name} {ph : EPhase} {f : FS} {ph' : EPhase} {f' : FS} {r : RState}
-    (h : RInv c pstar ph f r) (hs : EnvStep (ph, f) (ph', f')) : RInv c pstar ph' f' r := by
-  unfold RInv at *
+theorem pinv_env {c : Cfg} {pstar : Name} {ph : EPhase} {f : FS} {ph' : EPhase} {f' : FS} {r : RState}
+    (h : PInv c pstar ph f r) (hs : PackStep (ph, f) (ph', f')) : PInv c pstar ph' f' r := by
+  unfold PInv at *
   split
   · rename_i b hb; simp only [hb] at h; exact h
   · rename_i hb; simp only [hb] at h
@@ -129,29 +123,29 @@ theorem rinv_env {c : Cfg} {pstar : Name} {ph : EPhase} {f : FS} {ph' : EPhase} 
       · exact .inr (.inr (by unfold Budget; simp only; exact .inr ha))
     · subst hB
       cases ph'
-      · exact absurd hs (by simp [EnvStep])
+      · exact absurd hs (by simp [PackStep])
       · exact .inr (.inl ⟨rfl, hp⟩)
     · exact .inr (.inr (budget_env hbud hs))
 
-theorem rinv_init (c : Cfg) (pstar : Name) (hN : 3 ≤ c.maxAttempts) (ph : EPhase) (f : FS)
-    (cache idxL dataL : List Name) : RInv c pstar ph f (RState.init cache idxL dataL) := by
-  unfold RInv RState.init
+theorem pinv_init (c : Cfg) (pstar : Name) (hN : 3 ≤ c.maxAttempts) (ph : EPhase) (f : FS)
+    (cache idxL dataL : List Name) : PInv c pstar ph f (RState.init cache idxL dataL) := by
+  unfold PInv RState.init
   simp only
   refine ⟨fun q hq _ => hq, fun h => by simp at h, ?_⟩
   unfold Budget
   cases ph <;> simp only <;> right <;> omega
 
-theorem rinv_done {c : Cfg} {pstar : Name} {ph : EPhase} {f : FS} {r : RState} {b : Bool}
-    (h : RInv c pstar ph f r) (hd : r.phase = .done b) : b = true := by
-  unfold RInv at h
+theorem pinv_done {c : Cfg} {pstar : Name} {ph : EPhase} {f : FS} {r : RState} {b : Bool}
+    (h : PInv c pstar ph f r) (hd : r.phase = .done b) : b = true := by
+  unfold PInv at h
   simp only [hd] at h
   exact h
 
 /-- a new pass after a rescan in an environment where a holder is complete -/
-theorem rinv_nextAttempt {c : Cfg} {pstar : Name} {ph : EPhase} {f : FS} {r : RState}
-    (hok : EnvOK c pstar ph f) (hscan : r.phase = .scan)
+theorem pinv_nextAttempt {c : Cfg} {pstar : Name} {ph : EPhase} {f : FS} {r : RState}
+    (hok : HoldOK c pstar ph f) (hscan : r.phase = .scan)
     (hbud : Budget c pstar ph f r.attempt []) :
-    RInv c pstar ph f (nextAttempt c (withCache r (rescan f r.cache).1)) := by
+    PInv c pstar ph f (nextAttempt c (withCache r (rescan f r.cache).1)) := by
   have ha : r.attempt + 1 < c.maxAttempts := by
     unfold Budget at hbud
     cases ph <;> simp only at hbud
@@ -163,7 +157,7 @@ theorem rinv_nextAttempt {c : Cfg} {pstar : Name} {ph : EPhase} {f : FS} {r : RS
       · exact h
   unfold nextAttempt withCache
   simp only [ha, if_true]
-  unfold RInv
+  unfold PInv
   simp only [hscan]
   refine ⟨fun q hq _ => hq, ?_, ?_⟩
   · intro _
@@ -222,8 +216,14 @@ theorem step_scan_nil_disappeared {c : Cfg} {f : FS} {r : RState}
 theorem step_scan_nil_first {c : Cfg} {f : FS} {r : RState}
     (hph : r.phase = .scan) (htodo : r.todo = []) (hd : r.disappeared = false) (hr : r.rescanned = false) :
     step c f r =
-      if (rescan f r.cache).2.isEmpty = true then { withCache r (rescan f r.cache).1 with phase := .loose }
+      if (rescan f r.cache).2.isEmpty = true then { withCache r (rescan f r.cache).1 with phase := afterPacks r }
       else nextAttempt c (withCache r (rescan f r.cache).1) := by
+  simp only [step, hph, htodo, hd, hr]
+  simp
+
+theorem step_scan_nil_rescanned {c : Cfg} {f : FS} {r : RState}
+    (hph : r.phase = .scan) (htodo : r.todo = []) (hd : r.disappeared = false) (hr : r.rescanned = true) :
+    step c f r = { r with phase := afterPacks r } := by
   simp only [step, hph, htodo, hd, hr]
   simp
 
@@ -239,15 +239,15 @@ theorem step_needData_gone {c : Cfg} {f : FS} {r : RState} {p : Name}
   have hm : p ∉ f.data := by simpa using hdata
   simp [step, hph, hm]
 
-theorem rinv_step {c : Cfg} {pstar : Name} {ph : EPhase} {f : FS} {r : RState}
-    (h : RInv c pstar ph f r) (hok : EnvOK c pstar ph f) : RInv c pstar ph f (step c f r) := by
+theorem pinv_step {c : Cfg} {pstar : Name} {ph : EPhase} {f : FS} {r : RState}
+    (h : PInv c pstar ph f r) (hok : HoldOK c pstar ph f) : PInv c pstar ph f (step c f r) := by
   cases hph : r.phase with
   | done b => rw [step_done hph]; exact h
-  | loose => unfold RInv at h; simp only [hph] at h
-  | alts => unfold RInv at h; simp only [hph] at h
+  | loose => unfold PInv at h; simp only [hph] at h
+  | alts => unfold PInv at h; simp only [hph] at h
   | scan =>
     have h' := h
-    unfold RInv at h'
+    unfold PInv at h'
     simp only [hph] at h'
     obtain ⟨hK, hL, hB⟩ := h'
     cases htodo : r.todo with
@@ -259,8 +259,8 @@ theorem rinv_step {c : Cfg} {pstar : Name} {ph : EPhase} {f : FS} {r : RState}
           have hx' : c.x ∈ c.ids p := by simpa using hx
           rw [step_scan_hit hph htodo hidx hx]
           split
-          · unfold RInv; simp
-          · unfold RInv
+          · unfold PInv; simp
+          · unfold PInv
             simp only
             refine ⟨⟨rest, htodo⟩, hx', ?_, ?_⟩
             · intro q hq hqx
@@ -283,7 +283,7 @@ theorem rinv_step {c : Cfg} {pstar : Name} {ph : EPhase} {f : FS} {r : RState}
         | false =>
           have hx' : c.x ∉ c.ids p := by simpa using hx
           rw [step_scan_miss hph htodo hidx hx]
-          unfold RInv
+          unfold PInv
           simp only [hph]
           refine ⟨?_, ?_, ?_⟩
           · intro q hq hqx
@@ -317,7 +317,7 @@ theorem rinv_step {c : Cfg} {pstar : Name} {ph : EPhase} {f : FS} {r : RState}
           simp only [Bool.or_eq_false_iff] at hidx
           exact hidx.2
         rw [step_scan_gone hph htodo hidx]
-        unfold RInv evict
+        unfold PInv evict
         simp only [hph]
         refine ⟨?_, fun _ => .inr rfl, ?_⟩
         · intro q hq hqx
@@ -349,7 +349,7 @@ theorem rinv_step {c : Cfg} {pstar : Name} {ph : EPhase} {f : FS} {r : RState}
       cases hd : r.disappeared with
       | true =>
         rw [step_scan_nil_disappeared hph htodo hd]
-        exact rinv_nextAttempt hok hph hB
+        exact pinv_nextAttempt hok hph hB
       | false =>
         cases hr : r.rescanned with
         | false =>
@@ -371,7 +371,7 @@ theorem rinv_step {c : Cfg} {pstar : Name} {ph : EPhase} {f : FS} {r : RState}
             · obtain ⟨p, hc, hx⟩ := hok
               exact key p hc hx
             · exact key pstar hok.1 hok.2
-          · exact rinv_nextAttempt hok hph hB
+          · exact pinv_nextAttempt hok hph hB
         | true =>
           exfalso
           rcases hL hr with ⟨q, hq, _⟩ | hdd
@@ -381,17 +381,17 @@ theorem rinv_step {c : Cfg} {pstar : Name} {ph : EPhase} {f : FS} {r : RState}
             cases hdd
   | needData p =>
     have h' := h
-    unfold RInv at h'
+    unfold PInv at h'
     simp only [hph] at h'
     obtain ⟨⟨rest, htodo⟩, hx, hK, hD⟩ := h'
     cases hdata : f.data.contains p with
     | true =>
       have := step_needData_ok (c := c) hph hdata
-      unfold RInv
+      unfold PInv
       rw [this]
     | false =>
       rw [step_needData_gone hph hdata]
-      unfold RInv evict
+      unfold PInv evict
       simp only
       refine ⟨?_, fun _ => .inr rfl, ?_⟩
       · intro q hq hqx
@@ -412,99 +412,338 @@ theorem rinv_step {c : Cfg} {pstar : Name} {ph : EPhase} {f : FS} {r : RState}
           cases this
         · exact hbud
 
+/-! ## The full lookup (`get_raw` / `__contains__` with the re-probe): objects that move from loose to a pack included -/
+
+/-- the object looked up by `c` exists: in a complete pack or as a loose file (phase A) / in the stable pack (phase B) -/
+def EnvOK (c : Cfg) (pstar : Name) : EPhase → FS → Prop
+  | .A, f => (∃ p, f.complete p = true ∧ c.x ∈ c.ids p) ∨ c.x ∈ f.loose
+  | .B, f => f.complete pstar = true ∧ c.x ∈ c.ids pstar
+
+/-- allowed evolution of the environment between two observations by the reader: while nothing has been removed
+(phase A) complete packs stay complete and the loose file of the object stays; once the stable pack is complete (phase B)
+anything else may go -/
+def EnvStep (c : Cfg) : EPhase × FS → EPhase × FS → Prop
+  | (.A, f), (.A, f') => (∀ p, f.complete p = true → f'.complete p = true) ∧ (c.x ∈ f.loose → c.x ∈ f'.loose)
+  | (.A, _), (.B, _) => True
+  | (.B, _), (.B, _) => True
+  | (.B, _), (.A, _) => False
+
+/-- a trace of (ghost phase, file system) pairs as seen at the reader's successive steps -/
+def Rely (c : Cfg) (pstar : Name) : List (EPhase × FS) → Prop
+  | [] => True
+  | [e] => EnvOK c pstar e.1 e.2
+  | e :: e' :: rest => EnvOK c pstar e.1 e.2 ∧ EnvStep c e e' ∧ Rely c pstar (e' :: rest)
+
+theorem envStep_pack {c : Cfg} {ph ph' : EPhase} {f f' : FS} (h : EnvStep c (ph, f) (ph', f')) :
+    PackStep (ph, f) (ph', f') := by
+  cases ph <;> cases ph'
+  · exact h.1
+  · trivial
+  · exact h
+  · trivial
+
+theorem envStep_not_BA {c : Cfg} {f f' : FS} (h : EnvStep c (.B, f) (.A, f')) : False := h
+
+/-- invariant of the two runs of `_lookup_in_packs` inside one lookup -/
+def LookInv (c : Cfg) (pstar : Name) (ph : EPhase) (f : FS) (r : RState) : Prop :=
+  if r.reprobed = true then ph = .B ∧ PInv c pstar .B f r
+  else ph = .B ∨ c.x ∈ f.loose ∨ (ph = .A ∧ PInv c pstar .A f r)
+
+/-- the reader invariant -/
+def RInv (c : Cfg) (pstar : Name) (ph : EPhase) (f : FS) (r : RState) : Prop :=
+  match r.phase with
+  | .done b => b = true
+  | .loose => r.reprobed = false ∧ (ph = .B ∨ c.x ∈ f.loose)
+  | .alts => r.reprobed = false ∧ ph = .B
+  | .scan => LookInv c pstar ph f r
+  | .needData _ => LookInv c pstar ph f r
+
+theorem rinv_done {c : Cfg} {pstar : Name} {ph : EPhase} {f : FS} {r : RState} {b : Bool}
+    (h : RInv c pstar ph f r) (hd : r.phase = .done b) : b = true := by
+  unfold RInv at h
+  simp only [hd] at h
+  exact h
+
+theorem rinv_init (c : Cfg) (pstar : Name) (hN : 3 ≤ c.maxAttempts) (ph : EPhase) (f : FS)
+    (cache idxL dataL : List Name) : RInv c pstar ph f (RState.init cache idxL dataL) := by
+  have hp := pinv_init c pstar hN .A f cache idxL dataL
+  unfold RInv
+  simp only [RState.init]
+  unfold LookInv
+  simp only [Bool.false_eq_true, if_false]
+  cases ph
+  · exact .inr (.inr ⟨rfl, hp⟩)
+  · exact .inl rfl
+
+/-- what one step of a `_lookup_in_packs` run can lead to -/
+theorem step_lookup_shape {c : Cfg} {f : FS} {r : RState} (hl : r.phase = .scan ∨ ∃ p, r.phase = .needData p) :
+    (step c f r).reprobed = r.reprobed ∧
+    ((step c f r).phase = .scan ∨ (∃ p, (step c f r).phase = .needData p) ∨ (step c f r).phase = .done true ∨
+      (step c f r).phase = afterPacks r) := by
+  rcases hl with hph | ⟨p, hph⟩
+  · cases htodo : r.todo with
+    | cons p rest =>
+      cases hidx : (r.idxLoaded.contains p || f.idx.contains p) with
+      | true =>
+        cases hx : (c.ids p).contains c.x with
+        | true =>
+          rw [step_scan_hit hph htodo hidx hx]
+          split
+          · exact ⟨rfl, .inr (.inr (.inl rfl))⟩
+          · exact ⟨rfl, .inr (.inl ⟨p, rfl⟩)⟩
+        | false =>
+          rw [step_scan_miss hph htodo hidx hx]
+          exact ⟨rfl, .inl hph⟩
+      | false =>
+        rw [step_scan_gone hph htodo hidx]
+        exact ⟨rfl, .inl hph⟩
+    | nil =>
+      have hna : ∀ r' : RState, r'.phase = .scan → r'.reprobed = r.reprobed →
+          (nextAttempt c r').reprobed = r.reprobed ∧ ((nextAttempt c r').phase = .scan ∨
+            (nextAttempt c r').phase = afterPacks r) := by
+        intro r' hp hr
+        unfold nextAttempt
+        split
+        · exact ⟨hr, .inl hp⟩
+        · refine ⟨hr, .inr ?_⟩
+          simp only [afterPacks, hr]
+      cases hd : r.disappeared with
+      | true =>
+        rw [step_scan_nil_disappeared hph htodo hd]
+        obtain ⟨h1, h2⟩ := hna (withCache r (rescan f r.cache).1) hph rfl
+        exact ⟨h1, h2.elim .inl (fun h => .inr (.inr (.inr h)))⟩
+      | false =>
+        cases hr : r.rescanned with
+        | false =>
+          rw [step_scan_nil_first hph htodo hd hr]
+          split
+          · exact ⟨rfl, .inr (.inr (.inr rfl))⟩
+          · obtain ⟨h1, h2⟩ := hna (withCache r (rescan f r.cache).1) hph rfl
+            exact ⟨h1, h2.elim .inl (fun h => .inr (.inr (.inr h)))⟩
+        | true =>
+          rw [step_scan_nil_rescanned hph htodo hd hr]
+          exact ⟨rfl, .inr (.inr (.inr rfl))⟩
+  · cases hdata : f.data.contains p with
+    | true =>
+      have hm : p ∈ f.data := by simpa using hdata
+      refine ⟨by simp [step, hph, hm], .inr (.inr (.inl (step_needData_ok hph hdata)))⟩
+    | false =>
+      rw [step_needData_gone hph hdata]
+      exact ⟨rfl, .inl rfl⟩
+
+/-- a `PInv` state is in a lookup phase or finished with "found" -/
+theorem pinv_phase {c : Cfg} {pstar : Name} {ph : EPhase} {f : FS} {r : RState} (h : PInv c pstar ph f r) :
+    r.phase = .scan ∨ (∃ p, r.phase = .needData p) ∨ r.phase = .done true := by
+  unfold PInv at h
+  cases hp : r.phase with
+  | done b => simp only [hp] at h; subst h; exact .inr (.inr rfl)
+  | loose => simp only [hp] at h
+  | alts => simp only [hp] at h
+  | scan => exact .inl rfl
+  | needData p => exact .inr (.inl ⟨p, rfl⟩)
+
+theorem rinv_of_pinv {c : Cfg} {pstar : Name} {ph : EPhase} {f : FS} {r : RState}
+    (hp : PInv c pstar ph f r) (hl : LookInv c pstar ph f r) : RInv c pstar ph f r := by
+  unfold RInv
+  rcases pinv_phase hp with h | ⟨p, h⟩ | h
+  · simp only [h]; exact hl
+  · simp only [h]; exact hl
+  · simp only [h]
+
+theorem holdOK_B {c : Cfg} {pstar : Name} {f : FS} (h : EnvOK c pstar .B f) : HoldOK c pstar .B f := h
+
+theorem rinv_step {c : Cfg} {pstar : Name} {ph : EPhase} {f : FS} {r : RState} (hN : 3 ≤ c.maxAttempts)
+    (hre : c.reprobe = true) (h : RInv c pstar ph f r) (hok : EnvOK c pstar ph f) :
+    RInv c pstar ph f (step c f r) := by
+  -- the two lookup phases are handled alike
+  have lookup : (r.phase = .scan ∨ ∃ p, r.phase = .needData p) → LookInv c pstar ph f r →
+      RInv c pstar ph f (step c f r) := by
+    intro hl hinv
+    obtain ⟨hrep, hshape⟩ := step_lookup_shape (c := c) (f := f) hl
+    unfold LookInv at hinv
+    by_cases hr : r.reprobed = true
+    · simp only [hr, if_true] at hinv
+      obtain ⟨hB, hp⟩ := hinv
+      subst hB
+      have hp' := pinv_step hp (holdOK_B hok)
+      refine rinv_of_pinv hp' ?_
+      unfold LookInv
+      simp only [hrep, hr, if_true]
+      exact ⟨by first | rfl | trivial, hp'⟩
+    · have hr' : r.reprobed = false := by simpa using hr
+      simp only [hr', Bool.false_eq_true, if_false] at hinv
+      -- generic case: anything may happen, but the loose probe / the re-probe is still ahead
+      have generic : (ph = .B ∨ c.x ∈ f.loose) → RInv c pstar ph f (step c f r) := by
+        intro hg
+        have hL : LookInv c pstar ph f (step c f r) := by
+          unfold LookInv
+          simp only [hrep, hr', Bool.false_eq_true, if_false]
+          rcases hg with h | h
+          · exact .inl h
+          · exact .inr (.inl h)
+        unfold RInv
+        rcases hshape with h | ⟨p, h⟩ | h | h
+        · simp only [h]; exact hL
+        · simp only [h]; exact hL
+        · simp only [h]
+        · simp only [h, afterPacks, hr', Bool.false_eq_true, if_false]
+          exact ⟨hrep.trans hr', hg⟩
+      rcases hinv with hB | hloose | ⟨hA, hp⟩
+      · exact generic (.inl hB)
+      · exact generic (.inr hloose)
+      · by_cases hlo : c.x ∈ f.loose
+        · exact generic (.inr hlo)
+        · subst hA
+          have hhold : HoldOK c pstar .A f := by
+            rcases hok with h | h
+            · exact h
+            · exact absurd h hlo
+          have hp' := pinv_step hp hhold
+          refine rinv_of_pinv hp' ?_
+          unfold LookInv
+          simp only [hrep, hr', Bool.false_eq_true, if_false]
+          exact .inr (.inr ⟨by first | rfl | trivial, hp'⟩)
+  cases hph : r.phase with
+  | done b => rw [step_done hph]; exact h
+  | scan =>
+    unfold RInv at h
+    simp only [hph] at h
+    exact lookup (.inl hph) h
+  | needData p =>
+    unfold RInv at h
+    simp only [hph] at h
+    exact lookup (.inr ⟨p, hph⟩) h
+  | loose =>
+    unfold RInv at h
+    simp only [hph] at h
+    obtain ⟨hr, hg⟩ := h
+    by_cases hlo : c.x ∈ f.loose
+    · have : (step c f r).phase = .done true := by simp [step, hph, hlo]
+      unfold RInv
+      simp only [this]
+    · have e : step c f r = { r with phase := .alts } := by simp [step, hph, hlo]
+      rw [e]
+      unfold RInv
+      simp only
+      refine ⟨hr, ?_⟩
+      rcases hg with h | h
+      · exact h
+      · exact absurd h hlo
+  | alts =>
+    unfold RInv at h
+    simp only [hph] at h
+    obtain ⟨hr, hB⟩ := h
+    subst hB
+    by_cases ha : c.x ∈ c.alts
+    · have : (step c f r).phase = .done true := by simp [step, hph, ha]
+      unfold RInv
+      simp only [this]
+    · have e : step c f r =
+          { r with attempt := 0, rescanned := false, disappeared := false, todo := r.cache, phase := .scan, reprobed := true } := by
+        simp [step, hph, ha, hre, hr]
+      rw [e]
+      unfold RInv
+      simp only
+      unfold LookInv
+      simp only [if_true]
+      refine ⟨by first | rfl | trivial, ?_⟩
+      unfold PInv
+      simp only
+      refine ⟨fun q hq _ => hq, fun hh => by simp at hh, ?_⟩
+      unfold Budget
+      simp only
+      exact .inr (by omega)
+
+theorem rinv_env {c : Cfg} {pstar : Name} {ph : EPhase} {f : FS} {ph' : EPhase} {f' : FS} {r : RState}
+    (h : RInv c pstar ph f r) (hs : EnvStep c (ph, f) (ph', f')) : RInv c pstar ph' f' r := by
+  have look : LookInv c pstar ph f r → LookInv c pstar ph' f' r := by
+    intro hl
+    unfold LookInv at hl ⊢
+    by_cases hr : r.reprobed = true
+    · simp only [hr, if_true] at hl ⊢
+      obtain ⟨hB, hp⟩ := hl
+      subst hB
+      cases ph'
+      · exact absurd hs (fun h => envStep_not_BA h)
+      · exact ⟨rfl, pinv_env hp (envStep_pack hs)⟩
+    · have hr' : r.reprobed = false := by simpa using hr
+      simp only [hr', Bool.false_eq_true, if_false] at hl ⊢
+      cases ph <;> cases ph'
+      · rcases hl with h | h | ⟨_, hp⟩
+        · cases h
+        · exact .inr (.inl (hs.2 h))
+        · exact .inr (.inr ⟨rfl, pinv_env hp (envStep_pack hs)⟩)
+      · exact .inl rfl
+      · exact absurd hs (fun h => envStep_not_BA h)
+      · exact .inl rfl
+  unfold RInv at h ⊢
+  cases hph : r.phase with
+  | done b => simp only [hph] at h ⊢; exact h
+  | scan => simp only [hph] at h ⊢; exact look h
+  | needData p => simp only [hph] at h ⊢; exact look h
+  | loose =>
+    simp only [hph] at h ⊢
+    refine ⟨h.1, ?_⟩
+    cases ph <;> cases ph'
+    · rcases h.2 with h | h
+      · cases h
+      · exact .inr (hs.2 h)
+    · exact .inl rfl
+    · exact absurd hs (fun h => envStep_not_BA h)
+    · exact .inl rfl
+  | alts =>
+    simp only [hph] at h ⊢
+    refine ⟨h.1, ?_⟩
+    obtain ⟨_, hB⟩ := h
+    subst hB
+    cases ph'
+    · exact absurd hs (fun h => envStep_not_BA h)
+    · rfl
+
 /-! ### against traces -/
 
-theorem run_inv {c : Cfg} {pstar : Name} :
+theorem run_inv {c : Cfg} {pstar : Name} (hN : 3 ≤ c.maxAttempts) (hre : c.reprobe = true) :
     ∀ (tr : List (EPhase × FS)) (e : EPhase × FS) (r : RState), Rely c pstar (e :: tr) → RInv c pstar e.1 e.2 r →
       ∃ e' : EPhase × FS, RInv c pstar e'.1 e'.2 (run c ((e :: tr).map (·.2)) r) := by
   intro tr
   induction tr with
   | nil =>
     intro e r hrely hinv
-    exact ⟨e, rinv_step hinv hrely⟩
+    exact ⟨e, rinv_step hN hre hinv hrely⟩
   | cons e' rest ih =>
     intro e r hrely hinv
     obtain ⟨hok, hstep, hrest⟩ := hrely
-    have h1 := rinv_step hinv hok
+    have h1 := rinv_step hN hre hinv hok
     have h2 : RInv c pstar e'.1 e'.2 (step c e.2 r) := rinv_env (ph := e.1) (f := e.2) h1 hstep
     exact ih e' (step c e.2 r) hrest h2
 
-/-- MAIN 1: against every environment trace satisfying the rely, from any cache (stale names allowed, anything already
-loaded), the lookup never reports "missing". -/
-theorem reader_never_misses (c : Cfg) (pstar : Name) (hN : 3 ≤ c.maxAttempts)
+/-- MAIN 1: against every environment trace satisfying the rely (the object is always in a complete pack or loose; no
+pack file and not its loose file is removed before the stable pack is complete), from any cache, the lookup with the
+re-probe never reports "missing". -/
+theorem reader_never_misses (c : Cfg) (pstar : Name) (hN : 3 ≤ c.maxAttempts) (hre : c.reprobe = true)
     (tr : List (EPhase × FS)) (hrely : Rely c pstar tr) (cache idxL dataL : List Name) (b : Bool)
     (hdone : (run c (tr.map (·.2)) (RState.init cache idxL dataL)).phase = .done b) : b = true := by
   cases tr with
   | nil => simp [run, RState.init] at hdone
   | cons e tr =>
-    obtain ⟨e', h⟩ := run_inv tr e _ hrely (rinv_init c pstar hN e.1 e.2 cache idxL dataL)
+    obtain ⟨e', h⟩ := run_inv hN hre tr e _ hrely (rinv_init c pstar hN e.1 e.2 cache idxL dataL)
     exact rinv_done h hdone
 
-/-! ### the interleaved system -/
+/-! ### the repacker's program -/
 
 def ghostPhase (hd hi : Bool) : EPhase := if (hd && hi) = true then .B else .A
 
-structure SInv (pstar : Name) (hd hi : Bool) (s : Sys) : Prop where
-  prog : checkProgram pstar hd hi s.prog = true
-  hdata : hd = true → s.fs.data.contains pstar = true
-  hidx : hi = true → s.fs.idx.contains pstar = true
-  readers : ∀ cr ∈ s.readers, cr.1.x ∈ cr.1.ids pstar ∧
-    (ghostPhase hd hi = .A → ∃ p, s.fs.complete p = true ∧ cr.1.x ∈ cr.1.ids p) ∧
-    RInv cr.1 pstar (ghostPhase hd hi) s.fs cr.2
+theorem ghostPhase_B {hd hi : Bool} (h : (hd && hi) = true) : ghostPhase hd hi = .B := by
+  simp [ghostPhase, h]
 
-theorem sinv_envOK {pstar : Name} {hd hi : Bool} {s : Sys} (h : SInv pstar hd hi s) {cr : Cfg × RState}
-    (hcr : cr ∈ s.readers) : EnvOK cr.1 pstar (ghostPhase hd hi) s.fs := by
-  obtain ⟨hx, hA, _⟩ := h.readers cr hcr
-  cases hg : ghostPhase hd hi with
-  | A => exact hA hg
-  | B =>
-    unfold ghostPhase at hg
-    split at hg
-    · rename_i hb
-      simp only [Bool.and_eq_true] at hb
-      refine ⟨?_, hx⟩
-      unfold FS.complete
-      simp only [Bool.and_eq_true]
-      exact ⟨h.hidx hb.2, h.hdata hb.1⟩
-    · cases hg
+theorem ghostPhase_A {hd hi : Bool} (h : (hd && hi) = false) : ghostPhase hd hi = .A := by
+  simp [ghostPhase, h]
 
-theorem mem_setAt {α : Type} {l : List α} {i : Nat} {a x : α} (h : x ∈ setAt l i a) : x = a ∨ x ∈ l := by
-  induction l generalizing i with
-  | nil => simp [setAt] at h
-  | cons y ys ih =>
-    cases i with
-    | zero =>
-      simp only [setAt, List.mem_cons] at h
-      rcases h with h | h
-      · exact .inl h
-      · exact .inr (List.mem_cons_of_mem _ h)
-    | succ n =>
-      simp only [setAt, List.mem_cons] at h
-      rcases h with h | h
-      · exact .inr (by simp [h])
-      · rcases ih h with h | h
-        · exact .inl h
-        · exact .inr (List.mem_cons_of_mem _ h)
-
-/-- an environment step re-establishes the invariant -/
-theorem sinv_env {pstar : Name} {hd hi hd' hi' : Bool} {s : Sys} {f' : FS} {rest : List Act}
-    (h : SInv pstar hd hi s) (hprog : checkProgram pstar hd' hi' rest = true)
-    (hdata : hd' = true → f'.data.contains pstar = true) (hidx : hi' = true → f'.idx.contains pstar = true)
-    (hstep : EnvStep (ghostPhase hd hi, s.fs) (ghostPhase hd' hi', f')) :
-    SInv pstar hd' hi' { s with fs := f', prog := rest } := by
-  refine ⟨hprog, hdata, hidx, ?_⟩
-  intro cr hcr
-  obtain ⟨hx, hA, hinv⟩ := h.readers cr hcr
-  refine ⟨hx, ?_, rinv_env hinv hstep⟩
-  intro hg'
-  cases hg : ghostPhase hd hi with
-  | A =>
-    obtain ⟨p, hc, hpx⟩ := hA hg
-    rw [hg, hg'] at hstep
-    exact ⟨p, hstep p hc, hpx⟩
-  | B =>
-    rw [hg, hg'] at hstep
-    exact absurd hstep (by simp [EnvStep])
+/-- ghost state of a program in execution: which of `pstar`'s files are in place -/
+structure ProgInv (pstar : Name) (prot : List Id) (hd hi : Bool) (f : FS) (prog : List Act) : Prop where
+  prog : checkProgram pstar prot hd hi prog = true
+  hdata : hd = true → f.data.contains pstar = true
+  hidx : hi = true → f.idx.contains pstar = true
 
 theorem complete_act_keep {f : FS} {a : Act} {q : Name}
     (ha : (∀ p, a ≠ .removeData p) ∧ (∀ p, a ≠ .removeIdx p)) (h : f.complete q = true) :
@@ -529,27 +768,174 @@ theorem complete_act_keep {f : FS} {a : Act} {q : Name}
   | addLoose x => simpa [FS.act] using h
   | delLoose x => simpa [FS.act] using h
 
-theorem ghostPhase_B {hd hi : Bool} (h : (hd && hi) = true) : ghostPhase hd hi = .B := by
-  simp [ghostPhase, h]
+theorem loose_act_keep {f : FS} {a : Act} {x : Id} (ha : a ≠ .delLoose x) (h : x ∈ f.loose) : x ∈ (f.act a).loose := by
+  cases a with
+  | installData p => simpa [FS.act] using h
+  | installIdx p => simpa [FS.act] using h
+  | removeData p => simpa [FS.act] using h
+  | removeIdx p => simpa [FS.act] using h
+  | addLoose y =>
+    simp only [FS.act]
+    split
+    · exact h
+    · exact List.mem_append_left _ h
+  | delLoose y =>
+    simp only [FS.act, List.mem_filter, bne_iff_ne, ne_eq]
+    refine ⟨h, ?_⟩
+    intro hxy
+    exact ha (by rw [hxy])
 
-theorem ghostPhase_A {hd hi : Bool} (h : (hd && hi) = false) : ghostPhase hd hi = .A := by
-  simp [ghostPhase, h]
+/-- one action of a program that passes `checkProgram`: the ghost flags move on, and for every reader whose object is
+protected the action is an allowed environment step -/
+theorem prog_step {pstar : Name} {prot : List Id} {hd hi : Bool} {f : FS} {a : Act} {rest : List Act}
+    (h : ProgInv pstar prot hd hi f (a :: rest)) :
+    ∃ hd' hi', ProgInv pstar prot hd' hi' (f.act a) rest ∧
+      ∀ c : Cfg, c.x ∈ prot → EnvStep c (ghostPhase hd hi, f) (ghostPhase hd' hi', f.act a) := by
+  have hp := h.prog
+  -- steps that remove no pack file and (while in phase A) no protected loose object
+  have keep : ∀ hd' hi' : Bool, ((hd && hi) = true → (hd' && hi') = true) →
+      ((∀ p, a ≠ .removeData p) ∧ (∀ p, a ≠ .removeIdx p)) →
+      (∀ x, a = .delLoose x → (hd && hi) = true ∨ x ∉ prot) →
+      ∀ c : Cfg, c.x ∈ prot → EnvStep c (ghostPhase hd hi, f) (ghostPhase hd' hi', f.act a) := by
+    intro hd' hi' hmono hnr hdl c hc
+    cases h1 : (hd && hi) <;> cases h2 : (hd' && hi')
+    · rw [ghostPhase_A h1, ghostPhase_A h2]
+      refine ⟨fun p hp => complete_act_keep hnr hp, fun hl => loose_act_keep ?_ hl⟩
+      intro ha
+      rcases hdl c.x ha with hb | hnp
+      · rw [h1] at hb; cases hb
+      · exact hnp hc
+    · rw [ghostPhase_A h1, ghostPhase_B h2]; trivial
+    · have := hmono h1; rw [h2] at this; cases this
+    · rw [ghostPhase_B h1, ghostPhase_B h2]; trivial
+  cases a with
+  | installData p =>
+    simp only [checkProgram] at hp
+    refine ⟨hd || p == pstar, hi, ⟨hp, ?_, ?_⟩, keep _ _ ?_ (by simp) (by simp)⟩
+    · intro hh
+      simp only [FS.act]
+      simp only [Bool.or_eq_true, beq_iff_eq] at hh
+      rcases hh with hh | hh
+      · have := h.hdata hh
+        split
+        · exact this
+        · simp only [List.contains_iff_mem, List.mem_append] at this ⊢
+          exact .inl this
+      · subst hh
+        split
+        · rename_i hc; exact hc
+        · simp
+    · intro hh
+      simpa [FS.act] using h.hidx hh
+    · intro hb
+      simp only [Bool.and_eq_true] at hb ⊢
+      exact ⟨by simp [hb.1], hb.2⟩
+  | installIdx p =>
+    simp only [checkProgram] at hp
+    refine ⟨hd, hi || p == pstar, ⟨hp, ?_, ?_⟩, keep _ _ ?_ (by simp) (by simp)⟩
+    · intro hh
+      simpa [FS.act] using h.hdata hh
+    · intro hh
+      simp only [FS.act]
+      simp only [Bool.or_eq_true, beq_iff_eq] at hh
+      rcases hh with hh | hh
+      · have := h.hidx hh
+        split
+        · exact this
+        · simp only [List.contains_iff_mem, List.mem_append] at this ⊢
+          exact .inl this
+      · subst hh
+        split
+        · rename_i hc; exact hc
+        · simp
+    · intro hb
+      simp only [Bool.and_eq_true] at hb ⊢
+      exact ⟨hb.1, by simp [hb.2]⟩
+  | addLoose x =>
+    simp only [checkProgram] at hp
+    exact ⟨hd, hi, ⟨hp, fun hh => by simpa [FS.act] using h.hdata hh, fun hh => by simpa [FS.act] using h.hidx hh⟩,
+      keep _ _ id (by simp) (by simp)⟩
+  | delLoose x =>
+    simp only [checkProgram, Bool.and_eq_true, Bool.or_eq_true] at hp
+    obtain ⟨hsafe, hp⟩ := hp
+    refine ⟨hd, hi, ⟨hp, fun hh => by simpa [FS.act] using h.hdata hh, fun hh => by simpa [FS.act] using h.hidx hh⟩,
+      keep _ _ id (by simp) ?_⟩
+    intro y hy
+    cases hy
+    rcases hsafe with ⟨h1, h2⟩ | h
+    · exact .inl (by simp [h1, h2])
+    · exact .inr (by simpa using h)
+  | removeData p =>
+    simp only [checkProgram, Bool.and_eq_true, bne_iff_ne, ne_eq] at hp
+    obtain ⟨⟨⟨hhd, hhi⟩, hne⟩, hp⟩ := hp
+    have hB : ghostPhase hd hi = .B := ghostPhase_B (by simp [hhd, hhi])
+    refine ⟨hd, hi, ⟨hp, ?_, ?_⟩, fun c _ => by rw [hB]; trivial⟩
+    · intro hh
+      have := h.hdata hh
+      simp only [FS.act, List.contains_iff_mem, List.mem_filter, bne_iff_ne, ne_eq] at this ⊢
+      exact ⟨this, fun e => hne e.symm⟩
+    · intro hh
+      simpa [FS.act] using h.hidx hh
+  | removeIdx p =>
+    simp only [checkProgram, Bool.and_eq_true, bne_iff_ne, ne_eq] at hp
+    obtain ⟨⟨⟨hhd, hhi⟩, hne⟩, hp⟩ := hp
+    have hB : ghostPhase hd hi = .B := ghostPhase_B (by simp [hhd, hhi])
+    refine ⟨hd, hi, ⟨hp, ?_, ?_⟩, fun c _ => by rw [hB]; trivial⟩
+    · intro hh
+      simpa [FS.act] using h.hdata hh
+    · intro hh
+      have := h.hidx hh
+      simp only [FS.act, List.contains_iff_mem, List.mem_filter, bne_iff_ne, ne_eq] at this ⊢
+      exact ⟨this, fun e => hne e.symm⟩
 
-/-- environment steps that do not remove pack files -/
-theorem envStep_keep {hd hi hd' hi' : Bool} {f : FS} {a : Act}
-    (ha : (∀ p, a ≠ .removeData p) ∧ (∀ p, a ≠ .removeIdx p))
-    (hmono : (hd && hi) = true → (hd' && hi') = true) :
-    EnvStep (ghostPhase hd hi, f) (ghostPhase hd' hi', f.act a) := by
-  cases h1 : (hd && hi) <;> cases h2 : (hd' && hi')
-  · rw [ghostPhase_A h1, ghostPhase_A h2]
-    intro p hp
-    exact complete_act_keep ha hp
-  · rw [ghostPhase_A h1, ghostPhase_B h2]; trivial
-  · have := hmono h1; rw [h2] at this; cases this
-  · rw [ghostPhase_B h1, ghostPhase_B h2]; trivial
+/-- `EnvOK` survives an allowed environment step (phase B from the ghost facts) -/
+theorem envOK_step {c : Cfg} {pstar : Name} {prot : List Id} {hd hi hd' hi' : Bool} {f f' : FS} {prog : List Act}
+    (hx : c.x ∈ c.ids pstar) (hok : EnvOK c pstar (ghostPhase hd hi) f)
+    (hs : EnvStep c (ghostPhase hd hi, f) (ghostPhase hd' hi', f')) (hP : ProgInv pstar prot hd' hi' f' prog) :
+    EnvOK c pstar (ghostPhase hd' hi') f' := by
+  cases h2 : (hd' && hi')
+  · rw [ghostPhase_A h2] at hs ⊢
+    cases h1 : (hd && hi)
+    · rw [ghostPhase_A h1] at hs hok
+      rcases hok with ⟨p, hc, hpx⟩ | hl
+      · exact .inl ⟨p, hs.1 p hc, hpx⟩
+      · exact .inr (hs.2 hl)
+    · rw [ghostPhase_B h1] at hs
+      exact absurd hs (fun h => envStep_not_BA h)
+  · rw [ghostPhase_B h2]
+    simp only [Bool.and_eq_true] at h2
+    refine ⟨?_, hx⟩
+    unfold FS.complete
+    simp only [Bool.and_eq_true]
+    exact ⟨hP.hidx h2.2, hP.hdata h2.1⟩
 
-theorem sched_inv {pstar : Name} {hd hi : Bool} {s : Sys} (h : SInv pstar hd hi s) (d : Option Nat) :
-    ∃ hd' hi', SInv pstar hd' hi' (s.sched d) := by
+/-! ### the interleaved system: one repacker, any number of readers -/
+
+structure SInv (pstar : Name) (prot : List Id) (hd hi : Bool) (s : Sys) : Prop where
+  prog : ProgInv pstar prot hd hi s.fs s.prog
+  readers : ∀ cr ∈ s.readers, 3 ≤ cr.1.maxAttempts ∧ cr.1.reprobe = true ∧ cr.1.x ∈ cr.1.ids pstar ∧ cr.1.x ∈ prot ∧
+    EnvOK cr.1 pstar (ghostPhase hd hi) s.fs ∧ RInv cr.1 pstar (ghostPhase hd hi) s.fs cr.2
+
+theorem mem_setAt {α : Type} {l : List α} {i : Nat} {a x : α} (h : x ∈ setAt l i a) : x = a ∨ x ∈ l := by
+  induction l generalizing i with
+  | nil => simp [setAt] at h
+  | cons y ys ih =>
+    cases i with
+    | zero =>
+      simp only [setAt, List.mem_cons] at h
+      rcases h with h | h
+      · exact .inl h
+      · exact .inr (List.mem_cons_of_mem _ h)
+    | succ n =>
+      simp only [setAt, List.mem_cons] at h
+      rcases h with h | h
+      · exact .inr (by simp [h])
+      · rcases ih h with h | h
+        · exact .inl h
+        · exact .inr (List.mem_cons_of_mem _ h)
+
+theorem sched_inv {pstar : Name} {prot : List Id} {hd hi : Bool} {s : Sys} (h : SInv pstar prot hd hi s)
+    (d : Option Nat) : ∃ hd' hi', SInv pstar prot hd' hi' (s.sched d) := by
   cases d with
   | some i =>
     refine ⟨hd, hi, ?_⟩
@@ -559,12 +945,12 @@ theorem sched_inv {pstar : Name} {hd hi : Bool} {s : Sys} (h : SInv pstar hd hi 
     · exact h
     · rename_i cr hget
       have hcr : cr ∈ s.readers := List.mem_of_getElem? hget
-      refine ⟨h.prog, h.hdata, h.hidx, ?_⟩
+      refine ⟨h.prog, ?_⟩
       intro cr' hcr'
       rcases mem_setAt hcr' with heq | hmem
-      · obtain ⟨hx, hA, hinv⟩ := h.readers cr hcr
+      · obtain ⟨hN, hre, hx, hpr, hok, hinv⟩ := h.readers cr hcr
         subst heq
-        exact ⟨hx, hA, rinv_step hinv (sinv_envOK (cr := cr) h hcr)⟩
+        exact ⟨hN, hre, hx, hpr, hok, rinv_step hN hre hinv hok⟩
       · exact h.readers cr' hmem
   | none =>
     unfold Sys.sched
@@ -572,84 +958,17 @@ theorem sched_inv {pstar : Name} {hd hi : Bool} {s : Sys} (h : SInv pstar hd hi 
     split
     · exact ⟨hd, hi, h⟩
     · rename_i a rest hprog
-      have hp := h.prog
-      rw [hprog] at hp
-      cases a with
-      | installData p =>
-        simp only [checkProgram] at hp
-        refine ⟨hd || p == pstar, hi, sinv_env h hp ?_ ?_ (envStep_keep (by simp) ?_)⟩
-        · intro hh
-          simp only [FS.act]
-          simp only [Bool.or_eq_true, beq_iff_eq] at hh
-          rcases hh with hh | hh
-          · have := h.hdata hh
-            split
-            · exact this
-            · simp only [List.contains_iff_mem, List.mem_append] at this ⊢
-              exact .inl this
-          · subst hh
-            split
-            · rename_i hc; exact hc
-            · simp
-        · intro hh
-          simpa [FS.act] using h.hidx hh
-        · intro hb
-          simp only [Bool.and_eq_true] at hb ⊢
-          exact ⟨by simp [hb.1], hb.2⟩
-      | installIdx p =>
-        simp only [checkProgram] at hp
-        refine ⟨hd, hi || p == pstar, sinv_env h hp ?_ ?_ (envStep_keep (by simp) ?_)⟩
-        · intro hh
-          simpa [FS.act] using h.hdata hh
-        · intro hh
-          simp only [FS.act]
-          simp only [Bool.or_eq_true, beq_iff_eq] at hh
-          rcases hh with hh | hh
-          · have := h.hidx hh
-            split
-            · exact this
-            · simp only [List.contains_iff_mem, List.mem_append] at this ⊢
-              exact .inl this
-          · subst hh
-            split
-            · rename_i hc; exact hc
-            · simp
-        · intro hb
-          simp only [Bool.and_eq_true] at hb ⊢
-          exact ⟨hb.1, by simp [hb.2]⟩
-      | addLoose x =>
-        simp only [checkProgram] at hp
-        exact ⟨hd, hi, sinv_env h hp (fun hh => by simpa [FS.act] using h.hdata hh)
-          (fun hh => by simpa [FS.act] using h.hidx hh) (envStep_keep (by simp) id)⟩
-      | delLoose x =>
-        simp only [checkProgram] at hp
-        exact ⟨hd, hi, sinv_env h hp (fun hh => by simpa [FS.act] using h.hdata hh)
-          (fun hh => by simpa [FS.act] using h.hidx hh) (envStep_keep (by simp) id)⟩
-      | removeData p =>
-        simp only [checkProgram, Bool.and_eq_true, bne_iff_ne, ne_eq] at hp
-        obtain ⟨⟨⟨hhd, hhi⟩, hne⟩, hp⟩ := hp
-        have hB : ghostPhase hd hi = .B := ghostPhase_B (by simp [hhd, hhi])
-        refine ⟨hd, hi, sinv_env h hp ?_ ?_ (by rw [hB]; trivial)⟩
-        · intro hh
-          have := h.hdata hh
-          simp only [FS.act, List.contains_iff_mem, List.mem_filter, bne_iff_ne, ne_eq] at this ⊢
-          exact ⟨this, fun e => hne e.symm⟩
-        · intro hh
-          simpa [FS.act] using h.hidx hh
-      | removeIdx p =>
-        simp only [checkProgram, Bool.and_eq_true, bne_iff_ne, ne_eq] at hp
-        obtain ⟨⟨⟨hhd, hhi⟩, hne⟩, hp⟩ := hp
-        have hB : ghostPhase hd hi = .B := ghostPhase_B (by simp [hhd, hhi])
-        refine ⟨hd, hi, sinv_env h hp ?_ ?_ (by rw [hB]; trivial)⟩
-        · intro hh
-          simpa [FS.act] using h.hdata hh
-        · intro hh
-          have := h.hidx hh
-          simp only [FS.act, List.contains_iff_mem, List.mem_filter, bne_iff_ne, ne_eq] at this ⊢
-          exact ⟨this, fun e => hne e.symm⟩
+      have hP := h.prog
+      rw [hprog] at hP
+      obtain ⟨hd', hi', hP', hstep⟩ := prog_step hP
+      refine ⟨hd', hi', ⟨hP', ?_⟩⟩
+      intro cr hcr
+      obtain ⟨hN, hre, hx, hpr, hok, hinv⟩ := h.readers cr hcr
+      have hs := hstep cr.1 hpr
+      exact ⟨hN, hre, hx, hpr, envOK_step hx hok hs hP', rinv_env hinv hs⟩
 
-theorem exec_inv {pstar : Name} : ∀ (sched : List (Option Nat)) {hd hi : Bool} {s : Sys}, SInv pstar hd hi s →
-    ∃ hd' hi', SInv pstar hd' hi' (s.exec sched) := by
+theorem exec_inv {pstar : Name} {prot : List Id} : ∀ (sched : List (Option Nat)) {hd hi : Bool} {s : Sys},
+    SInv pstar prot hd hi s → ∃ hd' hi', SInv pstar prot hd' hi' (s.exec sched) := by
   intro sched
   induction sched with
   | nil => intro hd hi s h; exact ⟨hd, hi, h⟩
@@ -658,27 +977,322 @@ theorem exec_inv {pstar : Name} : ∀ (sched : List (Option Nat)) {hd hi : Bool}
     obtain ⟨hd1, hi1, h1⟩ := sched_inv h d
     exact ih h1
 
-/-- MAIN 2: one repacker whose program passes `checkProgram` (the new pack `pstar` is installed before any removal and is
-never removed), interleaved by ANY schedule with ANY number of readers, each looking up (with `get_raw` or
-`__contains__`, from any cache) an object that is in a complete pack initially and in `pstar`: no reader ever reports
-"missing", provided the lookup may make at least 3 passes. -/
-theorem sys_readers_never_miss (pstar : Name) (prog : List Act) (hprog : checkProgram pstar false false prog = true)
-    (f0 : FS) (readers : List (Cfg × RState))
-    (hreaders : ∀ cr ∈ readers, 3 ≤ cr.1.maxAttempts ∧ cr.1.x ∈ cr.1.ids pstar ∧
-        (∃ p, f0.complete p = true ∧ cr.1.x ∈ cr.1.ids p) ∧
+/-- MAIN 2: one repacker whose program passes `checkProgram` (the new pack `pstar` is installed before any pack file or
+protected loose object is removed, and is never removed; `started` = `pstar` is in place from the start), interleaved by
+ANY schedule with ANY number of readers (`get_raw` or `__contains__` with the re-probe, from any cache), each looking up a
+protected object that exists at the start — in a complete pack OR loose — and is in `pstar`: no reader ever reports
+"missing", provided a lookup may make at least 3 passes. -/
+theorem sys_readers_never_miss (pstar : Name) (prot : List Id) (started : Bool) (prog : List Act)
+    (hprog : checkProgram pstar prot started started prog = true) (f0 : FS)
+    (hstart : started = true → f0.complete pstar = true)
+    (readers : List (Cfg × RState))
+    (hreaders : ∀ cr ∈ readers, 3 ≤ cr.1.maxAttempts ∧ cr.1.reprobe = true ∧ cr.1.x ∈ cr.1.ids pstar ∧ cr.1.x ∈ prot ∧
+        ((∃ p, f0.complete p = true ∧ cr.1.x ∈ cr.1.ids p) ∨ cr.1.x ∈ f0.loose) ∧
         (∃ cache idxL dataL, cr.2 = RState.init cache idxL dataL))
     (sched : List (Option Nat)) :
     ∀ cr ∈ (Sys.exec { fs := f0, prog := prog, readers := readers } sched).readers,
       ∀ b, cr.2.phase = .done b → b = true := by
-  have h0 : SInv pstar false false { fs := f0, prog := prog, readers := readers } := by
-    refine ⟨hprog, by simp, by simp, ?_⟩
+  have h0 : SInv pstar prot started started { fs := f0, prog := prog, readers := readers } := by
+    refine ⟨⟨hprog, fun h => complete_data (hstart h), fun h => complete_idx (hstart h)⟩, ?_⟩
     intro cr hcr
-    obtain ⟨hN, hx, hh, cache, il, dl, hinit⟩ := hreaders cr hcr
-    refine ⟨hx, fun _ => hh, ?_⟩
-    rw [hinit]
-    exact rinv_init cr.1 pstar hN _ _ cache il dl
+    obtain ⟨hN, hre, hx, hpr, hh, cache, il, dl, hinit⟩ := hreaders cr hcr
+    refine ⟨hN, hre, hx, hpr, ?_, ?_⟩
+    · cases hs : started
+      · rw [ghostPhase_A (by simp)]
+        exact hh
+      · rw [ghostPhase_B (by simp)]
+        exact ⟨hstart hs, hx⟩
+    · rw [hinit]
+      exact rinv_init cr.1 pstar hN _ _ cache il dl
   obtain ⟨hd, hi, hfin⟩ := exec_inv sched h0
   intro cr hcr b hb
-  exact rinv_done (hfin.readers cr hcr).2.2 hb
+  exact rinv_done (hfin.readers cr hcr).2.2.2.2.2 hb
+
+/-! ## Iteration (`__iter__` with the rescan after the loose listing) is complete -/
+
+/-- invariant of an iteration with respect to one object `x` that exists throughout -/
+def IInv (ids : Name → List Id) (x : Id) (pstar : Name) (ph : EPhase) (f : FS) (r : IState) : Prop :=
+  x ∈ r.acc ∨
+  match r.phase with
+  | .rescan => True
+  | .packs => (pstar ∈ r.cache → pstar ∈ r.todo) ∧
+      (ph = .A → x ∈ f.loose ∨ ∃ H ∈ r.todo, x ∈ ids H ∧ f.complete H = true)
+  | .loose => pstar ∉ r.cache ∧ (ph = .A → x ∈ f.loose)
+  | .rescan2 => pstar ∉ r.cache ∧ ph = .B
+  | .packs2 => ph = .B ∧ pstar ∈ r.todo
+  | .alts => False
+  | .done => False
+
+/-- the iteration's view of the environment is that of a `__contains__` lookup of `x` -/
+def icfg (ids : Name → List Id) (x : Id) : Cfg :=
+  { ids := ids, x := x, needData := false, alts := [], maxAttempts := 3, reprobe := true }
+
+theorem iinv_env {ids : Name → List Id} {x : Id} {pstar : Name} {ph ph' : EPhase} {f f' : FS} {r : IState}
+    (h : IInv ids x pstar ph f r) (hs : EnvStep (icfg ids x) (ph, f) (ph', f')) : IInv ids x pstar ph' f' r := by
+  unfold IInv at h ⊢
+  rcases h with h | h
+  · exact .inl h
+  · right
+    cases hph : r.phase with
+    | rescan => trivial
+    | packs =>
+      simp only [hph] at h ⊢
+      refine ⟨h.1, ?_⟩
+      intro hA
+      subst hA
+      cases ph
+      · rcases h.2 rfl with hl | ⟨H, hH, hx, hc⟩
+        · exact .inl (hs.2 hl)
+        · exact .inr ⟨H, hH, hx, hs.1 H hc⟩
+      · exact absurd hs (fun h => envStep_not_BA h)
+    | loose =>
+      simp only [hph] at h ⊢
+      refine ⟨h.1, ?_⟩
+      intro hA
+      subst hA
+      cases ph
+      · exact hs.2 (h.2 rfl)
+      · exact absurd hs (fun h => envStep_not_BA h)
+    | rescan2 =>
+      simp only [hph] at h ⊢
+      refine ⟨h.1, ?_⟩
+      obtain ⟨_, hB⟩ := h
+      subst hB
+      cases ph'
+      · exact absurd hs (fun h => envStep_not_BA h)
+      · rfl
+    | packs2 =>
+      simp only [hph] at h ⊢
+      refine ⟨?_, h.2⟩
+      obtain ⟨hB, _⟩ := h
+      subst hB
+      cases ph'
+      · exact absurd hs (fun h => envStep_not_BA h)
+      · rfl
+    | alts => simp only [hph] at h
+    | done => simp only [hph] at h
+
+theorem iprobe_acc {ids : Name → List Id} {f : FS} {r : IState} {p : Name} {rest : List Name} {x : Id}
+    (h : x ∈ r.acc) : x ∈ (iprobe ids f r p rest).acc := by
+  unfold iprobe
+  split
+  · exact List.mem_append_left _ h
+  · exact h
+
+theorem istep_acc {ids : Name → List Id} {alts : List Id} {f : FS} {r : IState} {x : Id} (h : x ∈ r.acc) :
+    x ∈ (istep true ids alts f r).acc := by
+  unfold istep
+  split
+  · exact h
+  · split
+    · exact iprobe_acc h
+    · exact h
+  · exact List.mem_append_left _ h
+  · exact h
+  · split
+    · exact iprobe_acc h
+    · exact h
+  · exact List.mem_append_left _ h
+  · exact h
+
+theorem iinv_step {ids : Name → List Id} {alts : List Id} {x : Id} {pstar : Name} {ph : EPhase} {f : FS} {r : IState}
+    (hx : x ∈ ids pstar) (h : IInv ids x pstar ph f r) (hok : EnvOK (icfg ids x) pstar ph f) :
+    IInv ids x pstar ph f (istep true ids alts f r) := by
+  unfold IInv at h
+  rcases h with h | h
+  · exact .inl (istep_acc h)
+  · cases hph : r.phase with
+    | rescan =>
+      have e : istep true ids alts f r =
+          { r with cache := (rescan f r.cache).1,
+                   idxLoaded := r.idxLoaded.filter (fun q => (rescan f r.cache).1.contains q),
+                   todo := (rescan f r.cache).1, phase := .packs } := by simp [istep, hph]
+      rw [e]
+      unfold IInv
+      right
+      simp only
+      refine ⟨fun hq => hq, ?_⟩
+      intro hA
+      subst hA
+      rcases hok with ⟨p, hc, hpx⟩ | hl
+      · exact .inr ⟨p, complete_mem_rescan _ hc, hpx, hc⟩
+      · exact .inl hl
+    | packs =>
+      simp only [hph] at h
+      obtain ⟨hK, hA⟩ := h
+      cases htodo : r.todo with
+      | nil =>
+        have e : istep true ids alts f r = { r with phase := .loose } := by simp [istep, hph, htodo]
+        rw [e]
+        unfold IInv
+        right
+        simp only
+        rw [htodo] at hK hA
+        refine ⟨fun hc => (by have := hK hc; cases this), ?_⟩
+        intro hph'
+        rcases hA hph' with hl | ⟨H, hH, _⟩
+        · exact hl
+        · cases hH
+      | cons p rest =>
+        have e : istep true ids alts f r = iprobe ids f r p rest := by simp [istep, hph, htodo]
+        rw [e]
+        rw [htodo] at hK hA
+        unfold iprobe
+        split
+        · -- index available: listed
+          by_cases hpx : x ∈ ids p
+          · exact .inl (List.mem_append_right _ hpx)
+          · unfold IInv
+            right
+            simp only [hph]
+            refine ⟨?_, ?_⟩
+            · intro hc
+              rcases List.mem_cons.mp (hK hc) with heq | hm
+              · exact absurd (heq ▸ hx) hpx
+              · exact hm
+            · intro hph'
+              rcases hA hph' with hl | ⟨H, hH, hHx, hc⟩
+              · exact .inl hl
+              · rcases List.mem_cons.mp hH with heq | hm
+                · exact absurd (heq ▸ hHx) hpx
+                · exact .inr ⟨H, hm, hHx, hc⟩
+        · -- index gone: evicted
+          rename_i hidx
+          have hgone : f.idx.contains p = false := by
+            simp only [Bool.or_eq_true, not_or, Bool.not_eq_true] at hidx
+            exact hidx.2
+          unfold IInv
+          right
+          simp only [hph]
+          refine ⟨?_, ?_⟩
+          · intro hc
+            simp only [List.mem_filter, bne_iff_ne, ne_eq] at hc
+            rcases List.mem_cons.mp (hK hc.1) with heq | hm
+            · exact absurd heq hc.2
+            · exact hm
+          · intro hph'
+            rcases hA hph' with hl | ⟨H, hH, hHx, hc⟩
+            · exact .inl hl
+            · rcases List.mem_cons.mp hH with heq | hm
+              · have := complete_idx hc
+                rw [heq, hgone] at this
+                cases this
+              · exact .inr ⟨H, hm, hHx, hc⟩
+    | loose =>
+      simp only [hph] at h
+      obtain ⟨hnc, hA⟩ := h
+      have e : istep true ids alts f r = { r with acc := r.acc ++ f.loose, phase := .rescan2 } := by
+        simp [istep, hph]
+      rw [e]
+      cases ph
+      · exact .inl (List.mem_append_right _ (hA rfl))
+      · unfold IInv
+        right
+        simp only
+        exact ⟨hnc, by first | rfl | trivial⟩
+    | rescan2 =>
+      simp only [hph] at h
+      obtain ⟨hnc, hB⟩ := h
+      subst hB
+      have e : istep true ids alts f r =
+          { r with cache := (rescan f r.cache).1,
+                   idxLoaded := r.idxLoaded.filter (fun q => (rescan f r.cache).1.contains q),
+                   todo := (rescan f r.cache).2, phase := .packs2 } := by simp [istep, hph]
+      rw [e]
+      unfold IInv
+      right
+      simp only
+      exact ⟨by first | rfl | trivial, complete_mem_new r.cache hok.1 hnc⟩
+    | packs2 =>
+      simp only [hph] at h
+      obtain ⟨hB, hm⟩ := h
+      subst hB
+      cases htodo : r.todo with
+      | nil => rw [htodo] at hm; cases hm
+      | cons p rest =>
+        have e : istep true ids alts f r = iprobe ids f r p rest := by simp [istep, hph, htodo]
+        rw [e]
+        rw [htodo] at hm
+        unfold iprobe
+        split
+        · by_cases hpx : x ∈ ids p
+          · exact .inl (List.mem_append_right _ hpx)
+          · unfold IInv
+            right
+            simp only [hph]
+            refine ⟨by first | rfl | trivial, ?_⟩
+            rcases List.mem_cons.mp hm with heq | hm
+            · exact absurd (heq ▸ hx) hpx
+            · exact hm
+        · rename_i hidx
+          have hgone : f.idx.contains p = false := by
+            simp only [Bool.or_eq_true, not_or, Bool.not_eq_true] at hidx
+            exact hidx.2
+          unfold IInv
+          right
+          simp only [hph]
+          refine ⟨by first | rfl | trivial, ?_⟩
+          rcases List.mem_cons.mp hm with heq | hm
+          · have := complete_idx hok.1
+            rw [heq, hgone] at this
+            cases this
+          · exact hm
+    | alts => simp only [hph] at h
+    | done => simp only [hph] at h
+
+theorem iinv_done {ids : Name → List Id} {x : Id} {pstar : Name} {ph : EPhase} {f : FS} {r : IState}
+    (h : IInv ids x pstar ph f r) (hd : r.phase = .done) : x ∈ r.acc := by
+  unfold IInv at h
+  rcases h with h | h
+  · exact h
+  · simp only [hd] at h
+
+theorem iexec_inv {ids : Name → List Id} {alts : List Id} {x : Id} {pstar : Name} {prot : List Id}
+    (hx : x ∈ ids pstar) (hprot : x ∈ prot) :
+    ∀ (sched : List Bool) (hd hi : Bool) (f : FS) (prog : List Act) (r : IState),
+      ProgInv pstar prot hd hi f prog → EnvOK (icfg ids x) pstar (ghostPhase hd hi) f →
+      IInv ids x pstar (ghostPhase hd hi) f r →
+      ∃ ph f', IInv ids x pstar ph f' (iexec true ids alts f prog r sched).2.2 := by
+  intro sched
+  induction sched with
+  | nil => intro hd hi f prog r _ _ h; exact ⟨_, _, h⟩
+  | cons d ds ih =>
+    intro hd hi f prog r hP hok h
+    cases d with
+    | false =>
+      simp only [iexec]
+      exact ih hd hi f prog _ hP hok (iinv_step hx h hok)
+    | true =>
+      cases prog with
+      | nil =>
+        simp only [iexec]
+        exact ih hd hi f [] r hP hok h
+      | cons a rest =>
+        simp only [iexec]
+        obtain ⟨hd', hi', hP', hstep⟩ := prog_step hP
+        have hs := hstep (icfg ids x) hprot
+        exact ih hd' hi' (f.act a) rest r hP' (envOK_step (c := icfg ids x) hx hok hs hP') (iinv_env h hs)
+
+/-- MAIN 3: iteration (with the rescan after the loose listing) interleaved by ANY schedule with a repacker that passes
+`checkProgram`: every protected object that exists at the start — in a complete pack or loose — and is in `pstar` is in
+the result, whatever the iterator's initial cache. -/
+theorem iteration_complete (ids : Name → List Id) (alts : List Id) (x : Id) (pstar : Name) (prot : List Id)
+    (started : Bool) (prog : List Act) (hprog : checkProgram pstar prot started started prog = true) (f0 : FS)
+    (hstart : started = true → f0.complete pstar = true) (hx : x ∈ ids pstar) (hprot : x ∈ prot)
+    (hex : (∃ p, f0.complete p = true ∧ x ∈ ids p) ∨ x ∈ f0.loose)
+    (cache idxL : List Name) (sched : List Bool)
+    (hdone : (iexec true ids alts f0 prog (IState.init cache idxL) sched).2.2.phase = .done) :
+    x ∈ (iexec true ids alts f0 prog (IState.init cache idxL) sched).2.2.acc := by
+  have hP : ProgInv pstar prot started started f0 prog :=
+    ⟨hprog, fun h => complete_data (hstart h), fun h => complete_idx (hstart h)⟩
+  have hok : EnvOK (icfg ids x) pstar (ghostPhase started started) f0 := by
+    cases hs : started
+    · rw [ghostPhase_A (by simp)]; exact hex
+    · rw [ghostPhase_B (by simp)]; exact ⟨hstart hs, hx⟩
+  have h0 : IInv ids x pstar (ghostPhase started started) f0 (IState.init cache idxL) := by
+    unfold IInv IState.init
+    exact .inr trivial
+  obtain ⟨ph, f', h⟩ := iexec_inv (alts := alts) hx hprot sched started started f0 prog _ hP hok h0
+  exact iinv_done h hdone
 
 end Dulwich.Reader
